@@ -550,5 +550,464 @@ theorem readBody_writeBody_arrays (c : Coding α) (cfg : WriterCfg) (m : MeshVal
       if_false, Int.toNat_natCast, hcount, hfb, hfaces, bind, Except.bind, pure, Except.pure]
 
 
+/-! ## mesh assembly: `UpdateMesh` of the built readers -/
+
+def Built.key (b : Built) : Nat × Bytes := (b.names.length, b.attr)
+
+theorem set_topo (m : MeshVal α) (d : Nat) (n : Bytes) (data : List (List α)) :
+    (m.set d n data).topo = m.topo ∧ (m.set d n data).indices = m.indices := by
+  simp [MeshVal.set]
+
+theorem find?_filter_of_imp {β : Type} (p q : β → Bool) (hpq : ∀ x, p x = true → q x = true) :
+    ∀ (l : List β), (l.filter q).find? p = l.find? p := by
+  intro l
+  induction l with
+  | nil => rfl
+  | cons x l ih =>
+    by_cases hq : q x = true
+    · simp only [List.filter_cons, hq, if_true, List.find?_cons]
+      rw [ih]
+    · have hp : p x = false := by
+        cases hpx : p x with
+        | false => rfl
+        | true => exact absurd (hpq x hpx) hq
+      simp [List.filter_cons, hq, List.find?_cons, hp, ih]
+
+theorem set_find_ne (m : MeshVal α) (d d0 : Nat) (n n0 : Bytes) (data : List (List α)) (hne : (d, n) ≠ (d0, n0)) :
+    (m.set d n data).find d0 n0 = m.find d0 n0 := by
+  have hne' : ¬ (d0 = d ∧ n0 = n) := fun ⟨h1, h2⟩ => hne (by rw [h1, h2])
+  have hf := find?_filter_of_imp (fun a : Attr α => decide (a.dim = d0 ∧ a.name = n0))
+    (fun a => decide (¬ (a.dim = d ∧ a.name = n)))
+    (by
+      intro x hx; simp at hx ⊢
+      by_cases h1 : x.dim = d
+      · right; intro h2; exact hne' ⟨hx.1 ▸ h1, hx.2 ▸ h2⟩
+      · left; exact h1) m.attrs
+  simp only [MeshVal.set, MeshVal.find]
+  split
+  · exact hf
+  · rw [List.find?_append, hf]
+    cases hm : m.attrs.find? (fun a => decide (a.dim = d0 ∧ a.name = n0)) with
+    | some a => rfl
+    | none =>
+      have : ¬ (d = d0 ∧ n = n0) := fun ⟨h1, h2⟩ => hne (by rw [h1, h2])
+      simp [this]
+
+theorem set_find_eq (m : MeshVal α) (d : Nat) (n : Bytes) (data : List (List α)) (hd : data ≠ []) :
+    (m.set d n data).find d n = some ⟨d, n, data⟩ := by
+  have hemp : data.isEmpty = false := by cases data <;> simp_all
+  simp only [MeshVal.set, MeshVal.find, hemp, Bool.false_eq_true, if_false]
+  rw [List.find?_append]
+  have : (m.attrs.filter (fun a => decide (¬ (a.dim = d ∧ a.name = n)))).find? (fun a => decide (a.dim = d ∧ a.name = n)) = none := by
+    rw [List.find?_eq_none]
+    intro x hx
+    simp at hx
+    have h2 := hx.2
+    simp only [decide_eq_true_eq]
+    intro ⟨ha, hb⟩
+    rcases h2 with h | h
+    · exact h ha
+    · exact h hb
+  rw [this]
+  simp
+
+
+/-- one `UpdateMesh` -/
+def colStep (rows : List (List (List α))) (acc : MeshVal α) (x : Built × Nat) : MeshVal α :=
+  acc.set x.1.names.length x.1.attr (rows.map (fun r => r.getD x.2 []))
+
+theorem applyColumns_eq (m : MeshVal α) (built : List Built) (rows : List (List (List α))) :
+    applyColumns m built rows = built.zipIdx.foldl (colStep rows) m := rfl
+
+theorem foldl_col_topo (rows : List (List (List α))) : ∀ (l : List (Built × Nat)) (acc : MeshVal α),
+    (l.foldl (colStep rows) acc).topo = acc.topo ∧ (l.foldl (colStep rows) acc).indices = acc.indices := by
+  intro l
+  induction l with
+  | nil => intro acc; exact ⟨rfl, rfl⟩
+  | cons x l ih =>
+    intro acc
+    have h1 := ih (colStep rows acc x)
+    have h2 := set_topo acc x.1.names.length x.1.attr (rows.map (fun r => r.getD x.2 []))
+    simp only [List.foldl_cons]
+    exact ⟨h1.1.trans h2.1, h1.2.trans h2.2⟩
+
+theorem foldl_col_other (rows : List (List (List α))) (d0 : Nat) (n0 : Bytes) :
+    ∀ (l : List (Built × Nat)) (acc : MeshVal α), (∀ x ∈ l, Built.key x.1 ≠ (d0, n0)) →
+      (l.foldl (colStep rows) acc).find d0 n0 = acc.find d0 n0 := by
+  intro l
+  induction l with
+  | nil => intro acc _; rfl
+  | cons x l ih =>
+    intro acc h
+    simp only [List.foldl_cons]
+    rw [ih _ (fun y hy => h y (by simp [hy]))]
+    exact set_find_ne acc _ _ _ _ _ (h x (by simp))
+
+/-- the LAST reader with a key decides the attribute (`UpdateMesh` order) -/
+theorem foldl_col_hit (rows : List (List (List α))) (b0 : Built) (j0 : Nat) (pre post : List (Built × Nat))
+    (acc : MeshVal α) (hpost : ∀ x ∈ post, Built.key x.1 ≠ Built.key b0)
+    (hne : rows.map (fun r => r.getD j0 []) ≠ []) :
+    ((pre ++ (b0, j0) :: post).foldl (colStep rows) acc).find b0.names.length b0.attr
+      = some ⟨b0.names.length, b0.attr, rows.map (fun r => r.getD j0 [])⟩ := by
+  rw [List.foldl_append, List.foldl_cons, foldl_col_other rows _ _ post _ hpost]
+  exact set_find_eq _ _ _ _ hne
+
+theorem applyColumns_find (m : MeshVal α) (built : List Built) (rows : List (List (List α))) (j : Nat)
+    (hj : j < built.length) (hlast : ∀ j' (hj' : j' < built.length), j < j' → Built.key built[j'] ≠ Built.key built[j])
+    (hne : rows ≠ []) :
+    (applyColumns m built rows).find built[j].names.length built[j].attr
+      = some ⟨built[j].names.length, built[j].attr, rows.map (fun r => r.getD j [])⟩ := by
+  rw [applyColumns_eq]
+  have hsplit : built.zipIdx = (built.take j).zipIdx ++ (built[j], j) :: (built.drop (j + 1)).zipIdx (j + 1) := by
+    have hb : built = built.take j ++ built[j] :: built.drop (j + 1) := by simp
+    have key : ∀ (l pre post : List Built) (x : Built), l = pre ++ x :: post →
+        l.zipIdx = pre.zipIdx ++ (x, pre.length) :: post.zipIdx (pre.length + 1) := by
+      intro l pre post x hl; subst hl; simp [List.zipIdx_append, List.zipIdx_cons]
+    have := key built _ _ _ hb
+    simpa [Nat.min_eq_left (Nat.le_of_lt hj)] using this
+  rw [hsplit]
+  apply foldl_col_hit
+  · intro x hx
+    obtain ⟨k, hk, hke⟩ := List.getElem_of_mem hx
+    simp at hk
+    have : x = (built[j + 1 + k]'(by omega), j + 1 + k) := by
+      rw [← hke]; simp [List.getElem_zipIdx]
+    rw [this]
+    exact hlast (j + 1 + k) (by omega) (by omega)
+  · cases rows with
+    | nil => exact absurd rfl hne
+    | cons r rs => simp
+
+
+/-! ## header positions and record positions run in parallel -/
+
+theorem headerProps_cons (w : WProp) (ws : List WProp) :
+    headerProps (w :: ws) = w.names.map (fun n => (n, w.ty)) ++ headerProps ws := by simp [headerProps]
+
+/-- header and record are parallel flattenings: the `k`-th name of writer `w` and the `k`-th component it emits sit
+at the same position -/
+theorem parallel_at {ws : List WProp} {parts : List (List α)}
+    (hall : All2 (fun (w : WProp) (p : List α) => p.length = w.names.length) ws parts) :
+    ∀ (w : WProp) (p : List α), (w, p) ∈ ws.zip parts → ∀ k (hk : k < w.names.length) (hk' : k < p.length),
+      ∃ i : Nat, (headerProps ws)[i]? = some (w.names[k], w.ty) ∧ (parts.flatten)[i]? = some p[k] := by
+  induction hall with
+  | nil => intro w p h; simp at h
+  | @cons w0 p0 ws' parts' hlen _ ih =>
+    intro w p hmem k hk hk'
+    simp only [List.zip_cons_cons, List.mem_cons] at hmem
+    rcases hmem with heq | hmem
+    · obtain ⟨rfl, rfl⟩ := Prod.mk.inj heq
+      refine ⟨k, ?_, ?_⟩
+      · rw [headerProps_cons, List.getElem?_append_left (by simpa using hk)]
+        simp [hk]
+      · rw [List.flatten_cons, List.getElem?_append_left hk']
+        simp [hk']
+    · obtain ⟨i, h1, h2⟩ := ih w p hmem k hk hk'
+      refine ⟨w0.names.length + i, ?_, ?_⟩
+      · rw [headerProps_cons, List.getElem?_append_right (by simp)]
+        simpa using h1
+      · rw [List.flatten_cons, List.getElem?_append_right (by omega)]
+        simpa [hlen] using h2
+
+theorem idx_unique (props : List (Bytes × SType)) (hnd : (props.map (·.1)).Nodup) (i i' : Nat) (n : Bytes) (t t' : SType)
+    (h : props[i]? = some (n, t)) (h' : props[i']? = some (n, t')) : i = i' := by
+  obtain ⟨hi, he⟩ := List.getElem?_eq_some_iff.mp h
+  obtain ⟨hi', he'⟩ := List.getElem?_eq_some_iff.mp h'
+  by_cases hii : i = i'
+  · exact hii
+  · exfalso
+    rcases Nat.lt_or_gt_of_ne hii with hlt | hgt
+    · exact (List.pairwise_iff_getElem.mp hnd) i i' (by simpa using hi) (by simpa using hi') hlt (by simp [he, he'])
+    · exact (List.pairwise_iff_getElem.mp hnd) i' i (by simpa using hi') (by simpa using hi) hgt (by simp [he, he'])
+
+theorem filterMap_eq_of_pointwise {β : Type} (f : Nat → Option β) :
+    ∀ (l : List Nat) (out : List β), l.length = out.length →
+      (∀ k (hk : k < l.length) (hk' : k < out.length), f l[k] = some out[k]) → l.filterMap f = out := by
+  intro l
+  induction l with
+  | nil => intro out hl _; cases out <;> simp_all
+  | cons x l ih =>
+    intro out hl h
+    cases out with
+    | nil => simp at hl
+    | cons y out =>
+      have h0 := h 0 (by simp) (by simp)
+      simp at h0
+      have := ih out (by simpa using hl) (fun k hk hk' => by
+        have := h (k + 1) (by simpa using hk) (by simpa using hk')
+        simpa using this)
+      simp [List.filterMap_cons, h0, this]
+
+
+/-- a built reader located where its own names are in the header -/
+structure LocatedNamed (props : List (Bytes × SType)) (b : Built) (idxs : List Nat) : Prop where
+  loc : Located (props.map (·.2)) b idxs
+  len : idxs.length = b.names.length
+  named : ∀ k (hk : k < idxs.length) (hk' : k < b.names.length), (props[idxs[k]]?).map (·.1) = some b.names[k]
+
+/-- THE COLUMN OF A READER THAT SITS ON A WRITER'S PROPERTIES: for every vertex, what the reader decodes from the
+written record is the stored-precision image of exactly the components the writer emitted for that vertex -/
+theorem record_at (c : Coding α) (m : MeshVal α) (hwf : m.WF = true) (v : Nat) (ws : List WProp) (vals : List α)
+    (hrec : vertexRecord m ws v = .ok vals) (hnd : ((headerProps ws).map (·.1)).Nodup)
+    (w : WProp) (hw : w ∈ ws) (comps : List α) (hwv : writerValues m w v = .ok comps)
+    (idxs : List Nat) (hlen : idxs.length = w.names.length)
+    (hidx : ∀ k (hk : k < idxs.length) (hk' : k < w.names.length), ((headerProps ws)[idxs[k]]?).map (·.1) = some w.names[k])
+    (dim : Nat) :
+    idxs.filterMap (fun i =>
+        match (writerTypes ws)[i]?, vals[i]? with
+        | some t, some x => some (quantBin c dim t x)
+        | _, _ => none)
+      = comps.map (quantBin c dim w.ty) := by
+  simp only [vertexRecord] at hrec
+  cases hp : ws.mapM (fun w => writerValues m w v) with
+  | error e => simp [hp, bind, Except.bind] at hrec
+  | ok parts =>
+    simp [hp, bind, Except.bind, pure, Except.pure] at hrec
+    subst hrec
+    have hall := mapM_ok_forall₂ _ _ _ hp
+    have hlens : All2 (fun (w : WProp) (p : List α) => p.length = w.names.length) ws parts :=
+      hall.imp (fun w p h => writerValues_length m hwf w v p h)
+    have hzip : (w, comps) ∈ ws.zip parts := by
+      clear hlens hnd hidx hp
+      induction hall with
+      | nil => simp at hw
+      | @cons w0 p0 ws' parts' h0 _ ih =>
+        simp at hw
+        rcases hw with rfl | hw
+        · rw [hwv] at h0; simp at h0; subst h0; simp
+        · simp only [List.zip_cons_cons, List.mem_cons]; exact .inr (ih hw)
+    have hcl : comps.length = w.names.length := writerValues_length m hwf w v comps hwv
+    apply filterMap_eq_of_pointwise
+    · simp [hlen, hcl]
+    · intro k hk hk'
+      simp only [List.length_map] at hk'
+      obtain ⟨i, h1, h2⟩ := parallel_at hlens w comps hzip k (by omega) hk'
+      have hik := hidx k hk (by omega)
+      cases hpi : (headerProps ws)[idxs[k]]? with
+      | none => simp [hpi] at hik
+      | some q =>
+        simp [hpi] at hik
+        have hq : (headerProps ws)[idxs[k]]? = some (w.names[k]'(by omega), q.2) := by rw [hpi, ← hik]
+        have hii := idx_unique (headerProps ws) hnd i idxs[k] _ _ _ h1 hq
+        rw [hii] at h1 h2
+        have hty : (writerTypes ws)[idxs[k]]? = some w.ty := by
+          rw [← headerProps_types, List.getElem?_map, h1]; rfl
+        simp [hty, h2]
+
+
+/-! ## from arrays to corners -/
+
+theorem mapM_map_except {ι β γ : Type} (g : ι → R β) (f : β → γ) : ∀ (l : List ι),
+    l.mapM (fun i => (g i).map f) = (l.mapM g).map (List.map f) := by
+  intro l
+  induction l with
+  | nil => rfl
+  | cons i l ih =>
+    rw [List.mapM_cons, List.mapM_cons, ih]
+    cases g i with
+    | error e => rfl
+    | ok x => cases l.mapM g <;> rfl
+
+theorem gather_map {β γ : Type} (f : β → γ) (data : List β) (idx : List Int) :
+    gather (data.map f) idx = (gather data idx).map (List.map f) := by
+  simp only [gather]
+  rw [← mapM_map_except]
+  congr 1
+  funext i
+  by_cases hi : i < 0
+  · simp [hi, Except.map]
+  · simp only [hi, if_false, List.getElem?_toArray, List.getElem?_map]
+    cases data[i.toNat]? <;> rfl
+
+theorem gather_ok {β : Type} (data : List β) : ∀ (idx : List Int), (∀ i ∈ idx, 0 ≤ i ∧ i.toNat < data.length) →
+    ∃ out, gather data idx = .ok out := by
+  intro idx
+  simp only [gather]
+  induction idx with
+  | nil => intro _; exact ⟨[], rfl⟩
+  | cons i idx ih =>
+    intro h
+    obtain ⟨h0, h1⟩ := h i (by simp)
+    obtain ⟨out, hout⟩ := ih (fun j hj => h j (by simp [hj]))
+    have hi : ¬ i < 0 := by omega
+    refine ⟨data[i.toNat] :: out, ?_⟩
+    rw [List.mapM_cons, hout]
+    simp [hi, List.getElem?_eq_getElem h1, bind, Except.bind, pure, Except.pure]
+
+theorem quant_bin_some (c : Coding α) (f : Format) (hf : f ≠ .ascii) (dim : Nat) (t : SType) (v v' : α) (bs : Bytes)
+    (h : encScalarBin c f.endian t v' = .ok bs) : quant c f dim t v = some (quantBin c dim t v) := by
+  have himp : ∃ bs', encScalarBin c f.endian t v = .ok bs' := by
+    cases t <;> simp [encScalarBin] at h ⊢
+  obtain ⟨bs', hb⟩ := himp
+  have hd := dec_enc_scalar c f.endian dim t v bs' [] [] hb
+  simp only [List.nil_append, List.append_nil, List.length_nil] at hd
+  cases f with
+  | ascii => exact absurd rfl hf
+  | le => simp [quant, hb, hd, Except.toOption]
+  | be => simp [quant, hb, hd, Except.toOption]
+
+theorem mapM_some_map {β γ : Type} (q : β → Option γ) (g : β → γ) (hq : ∀ x, q x = some (g x)) :
+    ∀ (l : List β), l.mapM q = some (l.map g) := by
+  intro l
+  induction l with
+  | nil => rfl
+  | cons x l ih => simp [List.mapM_cons, hq, ih]
+
+
+theorem All2.get {β γ : Type} {P : β → γ → Prop} {xs : List β} {ys : List γ} (h : All2 P xs ys) :
+    ∀ k (hk : k < xs.length) (hk' : k < ys.length), P xs[k] ys[k] := by
+  induction h with
+  | nil => intro k hk; simp at hk
+  | cons hxy _ ih =>
+    intro k hk hk'
+    cases k with
+    | zero => simpa using hxy
+    | succ k => simpa using ih k (by simpa using hk) (by simpa using hk')
+
+theorem WF_len (m : MeshVal α) (h : m.WF = true) : ∀ a ∈ m.attrs, a.data.length = m.attrLen := by
+  intro a ha
+  simp only [MeshVal.WF, Bool.and_eq_true, List.all_eq_true, decide_eq_true_eq] at h
+  exact (h.1.1.2 a ha).1.1.2
+
+theorem WF_idx (m : MeshVal α) (h : m.WF = true) : ∀ i ∈ m.indices, 0 ≤ i ∧ i < m.attrLen := by
+  intro i hi
+  simp only [MeshVal.WF, Bool.and_eq_true, List.all_eq_true, decide_eq_true_eq] at h
+  exact h.1.2 i hi
+
+/-- the column a reader sitting on writer `w`'s properties accumulates over the whole vertex block: the attribute's
+array, every component replaced by its stored-precision image -/
+theorem column_of_writer (c : Coding α) (m : MeshVal α) (hwf : m.WF = true) (ws : List WProp)
+    (hnd : ((headerProps ws).map (·.1)).Nodup) (recs : List (List α))
+    (hrecs : (List.range m.attrLen).mapM (vertexRecord m ws) = .ok recs)
+    (w : WProp) (hw : w ∈ ws) (a : Attr α) (ha : m.find w.dim w.attr = some a)
+    (bl : List (Built × List Nat)) (j : Nat) (hj : j < bl.length) (hnames : bl[j].1.names = w.names)
+    (hln : LocatedNamed (headerProps ws) bl[j].1 bl[j].2) :
+    recs.map (fun vals => (rowOfW c (writerTypes ws) bl vals).getD j [])
+      = a.data.map (List.map (quantBin c w.dim w.ty)) := by
+  have hall := mapM_ok_forall₂ _ _ _ hrecs
+  have hrl : recs.length = m.attrLen := by simpa using hall.length_eq
+  obtain ⟨hmem, hdim⟩ := find_mem m _ _ a ha
+  have hal : a.data.length = m.attrLen := WF_len m hwf a hmem
+  apply List.ext_getElem
+  · simp [hrl, hal]
+  · intro v hv hv'
+    simp only [List.length_map] at hv hv'
+    have hrec : vertexRecord m ws v = .ok recs[v] := by
+      have := All2.get hall v (by simp; omega) hv
+      simpa using this
+    have hwv : writerValues m w v = .ok a.data[v] := by
+      simp [writerValues, ha, List.getElem?_eq_getElem hv']
+    have hlen : bl[j].2.length = w.names.length := by rw [hln.len, hnames]
+    have := record_at c m hwf v ws recs[v] hrec hnd w hw a.data[v] hwv bl[j].2 hlen
+      (fun k hk hk' => by
+        have := hln.named k hk (by rw [hnames]; exact hk')
+        simpa [hnames] using this) w.dim
+    simp only [List.getElem_map, rowOfW, List.getD_eq_getElem?_getD, List.getElem?_map,
+      List.getElem?_eq_getElem hj, Option.map_some, Option.getD_some]
+    have hdimeq : bl[j].1.names.length = w.dim := by rw [hnames]; rfl
+    simp only [hdimeq]
+    exact this
+
+
+theorem faces_indices (m : MeshVal α) (hwf : m.WF = true) (hsize : m.attrLen ≤ 2 ^ 31)
+    (tris : List (Int × Int × Int)) (fs : List (WFace α)) (hc : chunk3 m.indices = some tris)
+    (hidx : fs.map (·.idx) = tris) : (fs.map faceIdx).flatten = m.indices := by
+  have hfl := chunk3_flatten _ _ hc
+  have hin : ∀ f ∈ fs, faceIdx f = [f.idx.1, f.idx.2.1, f.idx.2.2] := by
+    intro f hf
+    have hmem : ∀ i ∈ [f.idx.1, f.idx.2.1, f.idx.2.2], i ∈ m.indices := by
+      intro i hi
+      rw [hfl, ← hidx]
+      simp only [List.map_map, List.mem_flatten, List.mem_map, Function.comp]
+      exact ⟨[f.idx.1, f.idx.2.1, f.idx.2.2], ⟨f, hf, rfl⟩, hi⟩
+    have hr : ∀ i ∈ [f.idx.1, f.idx.2.1, f.idx.2.2], toInt32 (ofInt32 i) = i := by
+      intro i hi
+      have := WF_idx m hwf i (hmem i hi)
+      exact toInt32_ofInt32' i ⟨by omega, by omega⟩
+    simp only [faceIdx, hr f.idx.1 (by simp), hr f.idx.2.1 (by simp), hr f.idx.2.2 (by simp)]
+  rw [hfl, ← hidx, List.map_map]
+  congr 1
+  apply List.map_congr_left
+  intro f hf
+  simpa using hin f hf
+
+/-- the claim stage, as witnesses: the readers the default reader builds on the written header are located where their
+names are, and every writer whose names the reader recognises (`comesBack`) has its reader, the last one with that key -/
+structure ClaimOK (cfg : WriterCfg) (m : MeshVal α) (bl : List (Built × List Nat)) : Prop where
+  built : bl.map (·.1) = buildAll true (headerProps (selectWriters cfg m)) defaultReaders true
+  located : ∀ p ∈ bl, LocatedNamed (headerProps (selectWriters cfg m)) p.1 p.2
+  demanded : ∀ w ∈ selectWriters cfg m, comesBack w = true →
+    ∃ j, ∃ hj : j < bl.length, bl[j].1.attr = w.attr ∧ bl[j].1.names = w.names ∧
+      ∀ j' (hj' : j' < bl.length), j < j' → Built.key bl[j'].1 ≠ Built.key bl[j].1
+
+
+theorem All2.exists_left {β γ : Type} {P : β → γ → Prop} {xs : List β} {ys : List γ} (h : All2 P xs ys) :
+    ∀ x ∈ xs, ∃ y, P x y := by
+  induction h with
+  | nil => intro x hx; simp at hx
+  | cons hxy _ ih =>
+    intro x hx
+    simp at hx
+    rcases hx with rfl | hx
+    · exact ⟨_, hxy⟩
+    · exact ih x hx
+
+theorem encRecordBin_ok_at (c : Coding α) (e : Endian) : ∀ (tys : List SType) (vals : List α) (rec : Bytes),
+    encRecordBin c e tys vals = .ok rec → ∀ i (hi : i < tys.length) (hv : i < vals.length),
+      ∃ bs, encScalarBin c e tys[i] vals[i] = .ok bs := by
+  intro tys
+  induction tys with
+  | nil => intro _ _ _ i hi; simp at hi
+  | cons t tys ih =>
+    intro vals rec henc i hi hv
+    match vals, hv with
+    | v :: vals, hv =>
+      rw [encRecordBin_cons] at henc
+      cases hb : encScalarBin c e t v with
+      | error x => simp [hb, bind, Except.bind] at henc
+      | ok b =>
+        cases hr : encRecordBin c e tys vals with
+        | error x => simp [hb, hr, bind, Except.bind] at henc
+        | ok r =>
+          cases i with
+          | zero => exact ⟨b, by simpa using hb⟩
+          | succ i => simpa using ih vals r hr i (by simpa using hi) (by simpa using hv)
+
+/-- a written scalar type is one the binary writer implements (otherwise `writeBody` panics) -/
+theorem written_type_implemented (c : Coding α) (e : Endian) (m : MeshVal α) (hwf : m.WF = true) (ws : List WProp)
+    (vals : List α) (rec : Bytes) (v : Nat) (hrec : vertexRecord m ws v = .ok vals)
+    (henc : encRecordBin c e (writerTypes ws) vals = .ok rec) (w : WProp) (hw : w ∈ ws) (hne : w.names ≠ []) :
+    ∃ v' bs, encScalarBin c e w.ty v' = .ok bs := by
+  have hvl := vertexRecord_length m hwf v ws vals hrec
+  simp only [vertexRecord] at hrec
+  cases hp : ws.mapM (fun w => writerValues m w v) with
+  | error e => simp [hp, bind, Except.bind] at hrec
+  | ok parts =>
+    simp [hp, bind, Except.bind, pure, Except.pure] at hrec
+    subst hrec
+    have hall := mapM_ok_forall₂ _ _ _ hp
+    have hlens : All2 (fun (w : WProp) (p : List α) => p.length = w.names.length) ws parts :=
+      hall.imp (fun w p h => writerValues_length m hwf w v p h)
+    obtain ⟨comps, hwv⟩ := All2.exists_left hall w hw
+    have hzip : (w, comps) ∈ ws.zip parts := by
+      clear hlens hp hvl henc
+      induction hall with
+      | nil => simp at hw
+      | @cons w0 p0 ws' parts' h0 _ ih =>
+        simp at hw
+        rcases hw with rfl | hw
+        · rw [hwv] at h0; simp at h0; subst h0; simp
+        · simp only [List.zip_cons_cons, List.mem_cons]; exact .inr (ih hw)
+    have hcl : comps.length = w.names.length := writerValues_length m hwf w v comps hwv
+    have h0 : 0 < w.names.length := by cases hn : w.names <;> simp_all
+    obtain ⟨i, h1, h2⟩ := parallel_at hlens w comps hzip 0 h0 (by omega)
+    obtain ⟨hi, _⟩ := List.getElem?_eq_some_iff.mp h2
+    have hty : (writerTypes ws)[i]? = some w.ty := by
+      rw [← headerProps_types, List.getElem?_map, h1]; rfl
+    obtain ⟨hi', hte⟩ := List.getElem?_eq_some_iff.mp hty
+    obtain ⟨bs, hbs⟩ := encRecordBin_ok_at c e _ _ _ henc i hi' hi
+    exact ⟨_, bs, by rw [← hte]; exact hbs⟩
+
+
 end PlyCompose
 end PolyVerif
